@@ -41,7 +41,7 @@ type NegativeBinomialDistribution struct {
 /* -------------------------------------------------------------------------- */
 
 func NewNegativeBinomialDistribution(r, p Scalar) (*NegativeBinomialDistribution, error) {
-  if r.GetFloat64() <= 0.0 || p.GetFloat64() < 0.0 || p.GetFloat64() > 1.0 {
+  if r.GetFloat64() <= 0.0 || p.GetFloat64() < 0.0 || p.GetFloat64() >= 1.0 {
     return nil, fmt.Errorf("invalid parameters")
   }
   t := r.Type()
